@@ -78,10 +78,16 @@ def confirm_and_write(prop, mod, v):
     if v['clause'] not in [c for c, _ in obs[0]]:
         raise HarnessError('violation %s did not reproduce on replay (got %r); case=%r' % (
             v['clause'], obs[0], case))
+    detail = v.get('detail')
     if hasattr(mod, 'minimise'):
-        case = mod.minimise(case, v['clause'])
+        case = json.loads(json.dumps(jsonable(mod.minimise(case, v['clause']))))
+        again = [f for f in mod.replay(case) if f['clause'] == v['clause']]
+        if not again:
+            raise HarnessError('minimised case of %s does not reproduce' % v['clause'])
+        detail = again[0].get('detail', detail)
+    v['detail'] = detail
     rec = {'property': prop, 'clause': v['clause'], 'signature': v.get('signature'),
-           'detail': jsonable(v.get('detail')), 'case': case,
+           'detail': jsonable(detail), 'case': case,
            'replay_cmd': '/venv/bin/python -m mc.run --replay <this file>'}
     os.makedirs(REPLAY_DIR, exist_ok=True)
     path = os.path.join(REPLAY_DIR, '%s-%s.json' % (prop, hexdigest((v['clause'], case))))
@@ -218,5 +224,8 @@ def main(argv=None):
 
 
 if __name__ == '__main__':
-    os.environ.setdefault('PYTHONHASHSEED', '0')
+    if os.environ.get('PYTHONHASHSEED') != '0' and not os.environ.get('MC_NO_REEXEC'):
+        # reproducible exploration order, counts and replay files: fixed string-hash seed
+        e = dict(os.environ, PYTHONHASHSEED='0', MC_NO_REEXEC='1')
+        os.execve(sys.executable, [sys.executable, '-m', 'mc.run'] + sys.argv[1:], e)
     sys.exit(main())
